@@ -66,8 +66,11 @@ def diag_suffix(clauses):
     if lost or gained:
         out += ":lost=%s:gained=%s" % ("+".join(lost), "+".join(gained))
     if nulls:
-        fam = sorted(set(_family(n) for n in nulls))
-        out += ":nullentry=" + "+".join(fam)
+        fam = set(_family(n) for n in nulls)
+        # one defect class: a NULL entry in an array whose element type is
+        # not string (the element types are listed in `what`)
+        out += ":nullentry-in-nonstring-array" if fam - {"string"} else \
+            ":nullentry-in-string-array"
     return out
 
 
